@@ -163,6 +163,31 @@ impl Drop for Isolated {
     }
 }
 
+/// `LOADTT <data> :: OK <entries> <digest> | ERR`: the Tiktoken loader from raw bytes, for the Lean model of
+/// the whole loader (lines, base64, decimal ids, conversion).
+pub fn loadtt_line(bytes: &[u8]) -> String {
+    let a = match guarded(|| Definition::from_tiktoken_slice(bytes)) {
+        Some(Ok(d)) => {
+            let mut listing = String::new();
+            if let Model::BytePair { vocab, .. } = &d.model {
+                for t in vocab.iter() {
+                    listing.push_str(&format!("{}:{};", t.id, hex(&t.bytes)));
+                }
+                listing.push('|');
+                for sp in d.specials.iter() {
+                    listing.push_str(&format!("{}:{};", sp.id, hex(&sp.bytes)));
+                }
+                format!("OK {} {:016x}", vocab.len(), crate::c19::fnv(listing.as_bytes()))
+            } else {
+                "ERR model".to_string()
+            }
+        }
+        Some(Err(_)) => "ERR".to_string(),
+        None => "PANIC".to_string(),
+    };
+    format!("LOADTT {} :: {}", hex(bytes), a)
+}
+
 fn loadf_line(iso: &mut Isolated, fmt: &str, what: &str, bytes: &[u8]) -> String {
     let a = iso.load(fmt, bytes);
     // small payloads travel in the line (replayable); large ones by description only
@@ -457,6 +482,33 @@ pub fn gen(rng: &mut Rng, thorough: bool, out: &mut Sink) {
             out.push(l);
         }
         out.add("child_crashes_generated", crashes);
+    }
+    // ---- the Tiktoken loader against its Lean model: generated texts, their mutations, the shipped files
+    for v in 0..(if thorough { 6000 } else { 600 }) {
+        let base = tiktoken_text(rng, v);
+        out.push(loadtt_line(&base));
+        let m = mutate(rng, &base);
+        out.push(loadtt_line(&m));
+        out.count("tiktoken_loader_model_cases");
+    }
+    for t in [&b"YQ== 1\n\xff\n"[..], &b"YQ== \xc3\xa9\n"[..], &b"\xff\xfe"[..]] {
+        out.push(loadtt_line(t));
+    }
+    for t in ["YQ== 0\r\nYg== 1\r\n", "YQ== +1\n", "YQ== 1 \n", "YQ==  1\n", " 1\n", "YQ==\n", "YQ= 1\n", "YR== 1\n", "YWJ= 1\n", "YQ== 4294967295\n", "YQ== 4294967296\n",
+              "YQ== 00000000000000000001\n", "\r\r\n\n", "YQ== 1\rYg== 2\n", "\rYQ== 1\r\r\n", "YQ==\t1\n", "YWJj 3\nYWJj 3\n"] {
+        out.push(loadtt_line(t.as_bytes()));
+    }
+    for (name, path) in shipped_models() {
+        if name.starts_with("tiktoken") {
+            if let Ok(data) = std::fs::read(&path) {
+                out.push(loadtt_line(&data));
+                // a few mutations of the whole file
+                for _ in 0..(if thorough { 6 } else { 1 }) {
+                    out.push(loadtt_line(&mutate(rng, &data)));
+                }
+                out.count("tiktoken_loader_model_shipped");
+            }
+        }
     }
     if timing {
         eprintln!("generated files: {:?}", t0.elapsed());
